@@ -1053,6 +1053,10 @@ def c06(ctx):
     ctx.add(spawn_join(fx, crates=("libxcp",)))
     ctx.add(pool_join_before_ok(fx))
     ctx.add(p_kinds.sibling_agreement(fx))
+    # the block-level driver copies the same bytes as the file-level one: its jobs tile each range
+    import p_tile
+    ctx.add(p_tile.jobs_tile_range(fx))
+    ctx.rep.extra["range_tiling"] = dict(decided=p_tile.jobs_tile_range.decided, undecided=p_tile.jobs_tile_range.notes)
 
 
 def c07(ctx):
